@@ -21,7 +21,7 @@ use ordered_float::OrderedFloat;
 use write_fonts::{OtRound, types::GlyphId16};
 
 use crate::{
-    error::{BadGlyph, Error},
+    error::{BadGlyph, BadGlyphKind, Error},
     ir::{Component, Glyph, GlyphBuilder, GlyphInstance, GlyphOrder, StaticMetadata},
     orchestration::{Context, Flags, IrWork, WorkId},
     propagate_anchors::propagate_all_anchors,
@@ -253,6 +253,69 @@ fn prune_missing_components(context: &Context) {
         }
         context.glyphs.set(new_glyph);
     }
+}
+
+/// Fail if any glyph reaches itself by following component references.
+///
+/// Everything downstream (anchor propagation, flattening, decomposition, and
+/// composite bounding boxes in the backend) walks the component graph and
+/// assumes it is acyclic; a cycle would otherwise recurse until the stack
+/// overflows.
+fn reject_component_cycles(context: &Context) -> Result<(), BadGlyph> {
+    let glyphs: HashMap<GlyphName, Arc<Glyph>> = context
+        .glyphs
+        .all()
+        .into_iter()
+        .map(|(_, glyph)| (glyph.name.clone(), glyph))
+        .collect();
+    let mut names: Vec<_> = glyphs.keys().cloned().collect();
+    names.sort();
+
+    // iterative depth-first search; `done` holds glyphs known to be cycle free
+    let mut done: HashSet<GlyphName> = HashSet::new();
+    for root in names {
+        if done.contains(&root) {
+            continue;
+        }
+        let mut path: Vec<GlyphName> = vec![root.clone()];
+        let mut pending: Vec<Vec<GlyphName>> = vec![component_names(&glyphs, &root)];
+        while let Some(children) = pending.last_mut() {
+            let Some(child) = children.pop() else {
+                pending.pop();
+                done.insert(path.pop().unwrap());
+                continue;
+            };
+            if done.contains(&child) {
+                continue;
+            }
+            if let Some(start) = path.iter().position(|name| *name == child) {
+                let mut cycle = path[start..].to_vec();
+                cycle.push(child);
+                return Err(BadGlyph::new(
+                    cycle[0].clone(),
+                    BadGlyphKind::ComponentCycle(cycle),
+                ));
+            }
+            pending.push(component_names(&glyphs, &child));
+            path.push(child);
+        }
+    }
+    Ok(())
+}
+
+/// The distinct, sorted names of the glyphs `name` uses as components in any of its sources
+fn component_names(glyphs: &HashMap<GlyphName, Arc<Glyph>>, name: &GlyphName) -> Vec<GlyphName> {
+    let Some(glyph) = glyphs.get(name) else {
+        return Vec::new();
+    };
+    glyph
+        .sources()
+        .values()
+        .flat_map(|inst| inst.components.iter())
+        .map(|component| component.base.clone())
+        .collect::<BTreeSet<_>>()
+        .into_iter()
+        .collect()
 }
 
 /// Equivalent to 'SkipExportGlyphsFilter' in pythonland:
@@ -828,6 +891,9 @@ impl Work<Context, WorkId, Error> for GlyphOrderWork {
         // missing component can't cause its glyph (or its siblings) to be
         // decomposed. See https://github.com/googlefonts/fontc/issues/1858
         prune_missing_components(context);
+
+        // Everything below (and the backend) assumes an acyclic component graph
+        reject_component_cycles(context)?;
 
         // Propagate anchors from components to composites (if enabled)
         // This must happen BEFORE flattening non-export components, because after
